@@ -50,6 +50,9 @@ pub const NB: usize = 3; // borrowed entry pointer slots
 pub const NT: usize = 4; // caller threads
 /// handle arguments >= BORROW_BASE name a borrow slot (a borrowed entry pointer used as an argument)
 pub const BORROW_BASE: i64 = 1000;
+/// parser steps allowed to one call on top of 256 per byte of its text arguments (encoders of big
+/// handles do not tick; decoders tick a few times per byte)
+pub const CALL_FUEL_BASE: u64 = 200_000;
 
 /// One call of the history. `h`: handle/slot arguments in the order of the C signature
 /// (-1 = null pointer); `n`: numeric arguments (f64 as bits); `s`: C string arguments as hex of
@@ -1692,7 +1695,14 @@ fn spawn_caller(sim: Arc<Mutex<Sim>>, ops: Arc<Vec<Op>>, ack: Sender<()>, announ
                         }
                         // a panic here comes from the Rust API used by the model (the C call of
                         // the same operation has already returned, or it would have aborted)
-                        if std::panic::catch_unwind(std::panic::AssertUnwindSafe(|| s.step(&ops[i]))).is_err() {
+                        // bounded liveness of every call: the step counter of the decoders aborts
+                        // the process (VERIF-FUEL-EXHAUSTED) when one call makes more parser steps
+                        // than any text of this size can need
+                        let text_len: usize = ops[i].s.iter().flatten().map(|h| h.len() / 2).sum();
+                        libhaystack::verif_hooks::arm_abort(CALL_FUEL_BASE + 256 * text_len as u64);
+                        let r = std::panic::catch_unwind(std::panic::AssertUnwindSafe(|| s.step(&ops[i])));
+                        libhaystack::verif_hooks::disarm();
+                        if r.is_err() {
                             let (msg, loc) = take_last_panic().unwrap_or_default();
                             s.model_panicked(&ops[i].f, &msg, &loc);
                         }
